@@ -305,6 +305,7 @@ def lean_build(prop, repo_src):
         if r.returncode != 0:
             res['ok'] = False
             res['problems'].append('translator gen_tables.py: ' + r.stderr.strip())
+        res['generated_tables'] = generated_tables()
         # the context-free grammar of parse.y (bison's report), next to the tables: Gen/Grammar.lean
         r = subprocess.run([sys.executable, os.path.join(ROOT, 'tools', 'gen_grammar.py'), repo_src,
                             os.path.join(LEAN, 'Mdsort', 'Gen', 'Grammar.lean')], capture_output=True, text=True)
@@ -362,6 +363,19 @@ def lean_build(prop, repo_src):
                 else:
                     res['discharged'] += 1
     return res
+
+
+def generated_tables():
+    """What `Gen/Tables.lean` holds on this run: the names it defines (each read from the sources / platform headers of the tree
+    under check by tools/gen_tables.py) and a hash of its text - evidence of which constants the theorems were checked against."""
+    import gen_tables
+    path = os.path.join(LEAN, 'Mdsort', 'Gen', 'Tables.lean')
+    try:
+        text = open(path).read()
+    except OSError:
+        return {'file': 'lean/Mdsort/Gen/Tables.lean', 'names': [], 'sha256': None}
+    names, digest = gen_tables.generated_names(text)
+    return {'file': 'lean/Mdsort/Gen/Tables.lean', 'names': names, 'sha256': digest, 'generator': 'tools/gen_tables.py'}
 
 
 def import_closure(mod):
@@ -748,6 +762,7 @@ def lean_gate(rep, prop, scratch, what_trusted):
         'checker_cmd': lb['checker_cmd'],
         'trusted_base': BASE_TRUSTED + list(what_trusted),
         'theorems': lb['axioms'],
+        'generated_tables': lb.get('generated_tables'),
     })
     rep.lean = lb
     if lb['problems']:
